@@ -360,6 +360,15 @@ func (c *Context) Quo(d, x, y *Decimal) (Condition, error) {
 				// setExponent.
 				nd = unknownNumDigits
 			}
+		} else {
+			// The subnormal result is rounded by setExponent, which sees only
+			// the coefficient. Append a non-zero sticky digit standing for the
+			// remainder so that it takes part in that rounding (and raises
+			// Inexact); the digit itself is always among those discarded.
+			d.Coeff.Mul(&d.Coeff, bigTen)
+			d.Coeff.Add(&d.Coeff, bigOne)
+			adjExp10++
+			nd = unknownNumDigits
 		}
 	}
 
